@@ -447,6 +447,20 @@ func c01Check(cs c01Case) (ds []disc) {
 			fail("api-size-hash", "Backend.HeadObject Size=%d Hash=%x want %d %s", obj.Size, obj.Hash, len(body), md5hex(body))
 		}
 	}
+	// --- a later upload several levels *below* the key (accepted by the key-value backends, outside
+	// the key domain of the file system backends while the key is live): whatever its fate, the
+	// acknowledged object is still what GET returns
+	if len(ds) == 0 && len(readKey)+len("/lower/deeper/leaf") <= 1024 && !strings.HasSuffix(readKey, "/") {
+		lower := readKey + "/lower/deeper/leaf"
+		lr := put(st, "bk0", lower, []byte("stored below the key"))
+		if lr.Status == 200 {
+			cleanup = append([]string{lower}, cleanup...)
+		}
+		g := get(st, "bk0", readKey)
+		if g.Status != 200 || !bytes.Equal(g.Body, body) || g.Header.Get("ETag") != et {
+			fail("lost-to-a-key-below", "after PUT of %q (answered %d) the object reads GET %d, %d bytes, ETag %s; it was acknowledged with %d bytes, ETag %s", trunc([]byte(lower), 80), lr.Status, g.Status, len(g.Body), g.Header.Get("ETag"), len(body), et)
+		}
+	}
 	return ds
 }
 
